@@ -45,6 +45,8 @@ class Parenthesis(Token):
             if not stack or self.opens[self.name] != stack[-1].name:
                 raise ParenthesesError()
             token = stack.pop()
+            if token.attr.get('brace', False) != self.attr.get('brace', False):
+                raise ParenthesesError()  # '(' closed by '}' or '{' by ')'.
             if not token.get_check_n(token):
                 raise ParenthesesError()
             n = self.attr['n_args'] = token.n_args
